@@ -133,9 +133,7 @@ def _well_formed(groups, idx):
                         return False
             if idx[k] == 7:
                 opens += 1
-                if a != 0:
-                    return False
-        if (opens and lanes) or lanes + opens == 0:
+        if (opens and lanes) or lanes + opens == 0 or opens > 1:
             return False
     # the first note cannot be forced (Moonscraper cannot produce it; the parser rejects it)
     for k in groups[0]:
@@ -188,7 +186,7 @@ def note_section(t0: int, t1: int, t2: int, t3: int,
             else:
                 forced = True
         ok = ok and ev.tick == tick and tuple(ev.note.value) == tuple(lanes)
-        # sustain
+        # sustain (an open note reports its own length wherever its line stands among flag lines)
         if open_len is not None:
             mx = open_len
             ok = ok and (not isinstance(ev.sustain, tuple)) and ev.sustain == open_len
